@@ -6,7 +6,8 @@
    of any size.  [critical] is the model of CriticalPathCalculator.calc(): the activity-on-arc
    network of the code, its forward and backward pass and the test slack == 0. *)
 From PJ Require Import Base.Prelude Crit.CritPath Crit.CritPathProofs Crit.CritNetProofs
-  Crit.CritWbsProofs Crit.CritCheck Crit.CritCheckProofs.
+  Crit.CritWbsProofs Crit.CritScaleProofs Crit.CritCheck Crit.CritCheckProofs
+  Crit.CritUnrepaired Crit.CritUnrepairedProofs.
 Open Scope Z_scope.
 
 (* ef i is the length of the longest dependency chain that ends in leaf i: no chain is longer, one
@@ -45,6 +46,11 @@ Proof. exact critical_nonempty. Qed.
 Theorem C12_nodup : forall w, NoDup (critical w).
 Proof. exact critical_nodup. Qed.
 
+(* the unit of measure is immaterial: rational amounts may be turned into integers by any common
+   denominator k > 0 (what the harness does; the repaired code computes with exact fractions) *)
+Theorem C12_scale : forall k w, 0 < k -> wf w -> wf (scale k w) /\ critical (scale k w) = critical w.
+Proof. exact critical_scale. Qed.
+
 (* a link P -> S declared on summary tasks binds every leaf under P before every leaf under S *)
 Theorem C12_summary : forall b S P ls lp, parents_first b ->
   In P (declared b S) -> leaf_under b lp P -> leaf_under b ls S -> In lp (eff_preds b ls).
@@ -77,6 +83,21 @@ Theorem C12_check_case : forall b order hdag code returned,
   parents_first b /\ wf (dag_of b order) /\ code = 0%nat /\ exact_b b order returned = true.
 Proof. exact check_case_ok. Qed.
 
+(* before the repairs (DESIGN.md F17, F18; the same inputs fail on the unpatched implementation):
+   with binary64 arithmetic the test slack == 0 loses zero-float leaves (0.1 -> 0.2 beside 0.3 gives
+   nothing; the chain 0.1 -> 0.2 -> 0.7 gives only its last task) ... *)
+Theorem C12_exact_refuted_binary64 :
+  fcritical f17_beside = [] /\ critical [(1, []); (2, [0%nat]); (3, [])] = [0; 1; 2]%nat
+  /\ fcritical f17_chain = [2%nat] /\ critical [(1, []); (2, [0%nat]); (7, [1%nat])] = [0; 1; 2]%nat.
+Proof. exact float_slack_refuted. Qed.
+
+(* ... and with links read from the leaf only, a predecessor declared on a summary is lost *)
+Theorem C12_summary_refuted_unexpanded :
+  let T p ps e := {| wparent := p; wpreds := ps; winside := true; west := Some e; wspent := None |} in
+  let b := [T None [] 10; T None [0%nat] 0; T (Some 1%nat) [] 2; T None [] 11] in
+  critical_tasks_naive b [0; 2; 3]%nat = [3%nat] /\ critical_tasks b [0; 2; 3]%nat = [0; 2]%nat.
+Proof. exact unexpanded_links_refuted. Qed.
+
 (* non-vacuity: summary A (leaves 1 -> 2, estimates 0.1 and 0.2 in units of 0.1), summary B waits for
    A (leaves 4: 0.7 and 6: zero length), a parallel leaf 5 of the same total length 1.0 that also
    names task 7 of another project.  The hypotheses hold, the link on the summaries binds the
@@ -106,9 +127,12 @@ Print Assumptions C12_slack.
 Print Assumptions C12_exact.
 Print Assumptions C12_nonempty.
 Print Assumptions C12_nodup.
+Print Assumptions C12_scale.
 Print Assumptions C12_summary.
 Print Assumptions C12_expansion_exact.
 Print Assumptions C12_wbs.
 Print Assumptions C12_oracle.
 Print Assumptions C12_check_case.
+Print Assumptions C12_exact_refuted_binary64.
+Print Assumptions C12_summary_refuted_unexpanded.
 Print Assumptions C12_example.
